@@ -20,6 +20,10 @@ Checking requests (`<op> <args…> => <implementation output>`, answered `model=
   wmodel2c / lmodel2c / wmodel1c / lmodel1c <…> <plainhex> => <hex>   the COMPRESSED writers: byte-exact with the
                                            compressor's output taken from the implementation's bytes, and the
                                            harness-decompressed payload = the model's uncompressed payload
+  pwset2 <pre> <attrs> <now> <recs> => <hex>  RecordSet.WriteTo on the REAL page buffer already holding <pre> bytes (so that
+                                           placeholders and WriteAt back-patches straddle the 64 KiB page boundary) ≡
+                                           Model/RecordWriterPaged.writeSetV2Paged with the extracted pageSize; also
+                                           checks the statement of Props/C05 recordset_write_paged_spec on the instance
   pbuf <ops,…> => <digests,…>              sequences of Write / WriteAt / ReadAt / scan / Truncate / ref+ReadAt on the real
                                            pageBuffer (export hook) against Model/PageBuffer with the extracted pageSize
   ptrace <a|r<id>|f<id>|u<id>,…> => ok <n>   the page-event trace recorded by the hooks in protocol/buffer.go during a
@@ -39,6 +43,7 @@ import KafkaVerif.Model.RecordReader
 import KafkaVerif.Model.Pages
 import KafkaVerif.Model.ConnReader
 import KafkaVerif.Model.PageBuffer
+import KafkaVerif.Model.RecordWriterPaged
 
 namespace KV.OracleC05
 open KV KV.RW KV.Spec.RB
@@ -262,6 +267,21 @@ def step (line : String) : String :=
         match zargs.mapM (parseZ bytes) with
         | none => "bad-op"
         | some zs => checkWire tag bytes zs impl
+    | ["pwset2", pre, attrs, now, recs] =>
+      match pre.toNat?, attrs.toInt?, now.toInt?, (recs.splitOn ";").mapM parseProd with
+      | some pre, some attrs, some now, some rs =>
+        let P := Gen.RecordConsts.pageSize
+        let prefix_ : Bytes := (List.range pre).map (fun i => (i % 251).toUInt8)
+        let pb := Model.RecordWriter.pagesOf P prefix_
+        match Model.RecordWriter.writeSetV2Paged P crcs.castagnoli attrs now rs pb,
+              Model.RecordWriter.writeV2 crcs.castagnoli attrs now rs with
+        | some pb', some bytes =>
+          let fl := Model.PageBuffer.flat pb'
+          let h := toHex (fl.drop (pre - 16))
+          let thm := fl == prefix_ ++ (RW.u32 bytes.length ++ bytes)
+          s!"model={h} holds={if h == impl && thm then 1 else 0}"
+        | _, _ => s!"model=error holds={if impl == "error" then 1 else 0}"
+      | _, _, _, _ => "bad-op"
     | ["pbuf", opsText] =>
       let model := match runPbuf Gen.RecordConsts.pageSize (opsText.splitOn ",") ⟨0, []⟩ [] with
         | some ds => if ds.isEmpty then "-" else ",".intercalate ds
